@@ -788,6 +788,40 @@ theorem c08_programs_end_flushed (a b c d : String) (i : Nat) :
     (revertProg a b c i).getLast? = some .fsyncDir := by
   simp [snapshotProg, removeProg, revertProg, encode]
 
+/-! ### the executable walk and the relation agree -/
+
+theorem chainFrom_sound (fs : FS) : ∀ (fuel : Nat) (d : String) (c : List (String × Nat)),
+    chainFrom fs fuel d = some c → IsChain fs d c := by
+  intro fuel
+  induction fuel with
+  | zero => intro d c h; cases h
+  | succ fuel ih =>
+    intro d c h
+    unfold chainFrom at h
+    split at h
+    · rename_i i p h1 h2
+      by_cases hp : p = ""
+      · rw [if_pos hp] at h
+        cases h
+        subst hp
+        exact IsChain.base d i h1 h2
+      · rw [if_neg hp] at h
+        cases hc : chainFrom fs fuel p with
+        | none => rw [hc] at h; cases h
+        | some c' =>
+          rw [hc] at h
+          cases h
+          exact IsChain.step d p i c' h1 h2 hp (ih p c' hc)
+    · cases h
+
+/-- what the driver's `recover` computes is a chain in the sense of the theorems -/
+theorem recover_sound (fs : FS) (c : List (String × Nat)) (h : recover fs = some c) : Recovers fs c := by
+  unfold recover at h
+  split at h
+  · rename_i hd hv
+    exact ⟨hd, hv, chainFrom_sound fs _ hd c h⟩
+  · cases h
+
 /-! ### non-vacuity: a concrete directory, every prefix of both programs, the executable recovery -/
 
 private def fs0 : FS :=
